@@ -379,6 +379,15 @@ def do_actions(acts, where):
                            found_suites=[unittest.defaultTestLoader.loadTestsFromTestCase(_Inner)])
             inner.run()
             emit('nested_run', failed=bool(inner.failed), where=where)
+        elif kind == 'garbage':
+            # cyclic garbage left behind by a test; optionally with a member that cannot be printed
+            class _Node:
+                if act[1] == 'bad_repr':
+                    def __repr__(self):
+                        raise ValueError('target is gone')
+            a, b = _Node(), _Node()
+            a.other, b.other = [b], {'back': a}
+            del a, b
         elif kind == 'warn_filter':
             # a test (or a module at import time) that changes the warnings filters
             import warnings
